@@ -100,7 +100,8 @@ class Criteria(object):
         # save the data value in old_data is there is something to save
         if self.data is None:
             self.__data = data
-            self.__old_data = 2.*data
+            # first value: there is nothing to compare with yet
+            self.__old_data = data
         else:
             self.__old_data = self.data
             self.__data = data
